@@ -310,6 +310,13 @@ def _apply_builder_call(res, callee, args):
         res["unknown"].append("builder method %s" % name)
 
 
+def header_name(t):
+    """A header name given as a string literal or as one of the http crate's HeaderName constants."""
+    if t[0] == "const" and t[2] is None and t[1] and t[1].startswith("http::header::name::") :
+        return t[1].rsplit("::", 1)[-1].replace("_", "-").lower()
+    return const_str(t)
+
+
 def const_str(t):
     if t[0] == "const" and isinstance(t[2], str):
         return t[2]
@@ -1161,7 +1168,7 @@ def c20(rep, W, rule="C20"):
             w = a[0]
             mm = m(call("actix_web::middleware::default_headers::DefaultHeaders::add", call("actix_web::middleware::default_headers::DefaultHeaders::new"), pat.tup(V("n"), V("v"))), w)
             if mm is not None:
-                n_, v_ = const_str(mm["n"]), const_str(mm["v"])
+                n_, v_ = header_name(mm["n"]), const_str(mm["v"])
                 directives = [d.strip().lower() for d in (v_ or "").split(",")]
                 okw = n_ is not None and n_.lower() == "cache-control" and "no-store" in directives
                 det = "DefaultHeaders adds (%r, %r)" % (n_, v_)
@@ -1275,7 +1282,7 @@ def c20(rep, W, rule="C20"):
                 n_hdr += 1
                 for a in pvb.arg_terms(bb):
                     for x in P.walk(a):
-                        if x[0] == "const" and isinstance(x[2], str) and x[2].lower() == "cache-control" and b.key != cfg.key:
+                        if x[0] == "const" and (header_name(x) or "").lower() == "cache-control" and b.key != cfg.key:
                             bad.append((b.deff, b.line_of_block(bb)))
     rep.ob(rule + ".NOOVERRIDE", ("server", "no-other-cache-control"), not bad, "header insertions naming Cache-Control outside the scope wrapper: %s" % (bad or "none"))
     rep.floor(rule + ".NOOVERRIDE", "header-insertion sites scanned", n_hdr, 3)
